@@ -85,6 +85,12 @@ func (c *vConn) Read(b []byte) (int, error) {
 	return 0, os.ErrDeadlineExceeded
 }
 
+func (c *vConn) consumed() bool {
+	c.mu.Lock()
+	defer c.mu.Unlock()
+	return c.pos >= len(c.in)
+}
+
 func (c *vConn) Write(b []byte) (int, error) {
 	c.mu.Lock()
 	defer c.mu.Unlock()
